@@ -128,15 +128,43 @@ def _worker(args):
         return r
 
 
-def pmap(fn: Callable, units: list, procs: Optional[int] = None, chunksize: int = 1) -> list:
-    """Run fn over work units in a process pool (fork), preserving order."""
+def pmap(fn: Callable, units: list, procs: Optional[int] = None, chunksize: int = 1, budget_s: Optional[float] = None) -> list:
+    """Run fn over work units in a process pool (fork), preserving order.  With a time budget, units
+    that have not been finished when it expires are skipped and reported (never silently)."""
     if procs is None:
         procs = int(os.environ.get("VERIF_PROCS", "0")) or min(16, os.cpu_count() or 1)
+    t0 = time.time()
+    out: list = []
     if procs <= 1 or len(units) <= 1:
-        return [_worker((fn, u)) for u in units]
-    ctx = mp.get_context("fork")
-    with ctx.Pool(procs, maxtasksperchild=200) as pool:
-        return list(pool.imap(_worker, [(fn, u) for u in units], chunksize))
+        for u in units:
+            if budget_s is not None and time.time() - t0 > budget_s:
+                break
+            out.append(_worker((fn, u)))
+    else:
+        ctx = mp.get_context("fork")
+        with ctx.Pool(procs, maxtasksperchild=200) as pool:
+            it = pool.imap(_worker, [(fn, u) for u in units], chunksize)
+            for _ in range(len(units)):
+                try:
+                    if budget_s is None:
+                        out.append(next(it))
+                    else:
+                        left = budget_s - (time.time() - t0)
+                        if left <= 0:
+                            break
+                        out.append(it.next(timeout=left))
+                except mp.TimeoutError:
+                    break
+                except StopIteration:
+                    break
+            pool.terminate()
+    skipped = len(units) - len(out)
+    if skipped:
+        r = UnitResult()
+        r.truncated = True
+        r.counters["work_units_skipped_by_time_budget"] = skipped
+        out.append(r)
+    return out
 
 
 class CheckRun:
